@@ -1,6 +1,7 @@
 package main
 
 import (
+	"go/token"
 	"fmt"
 	"go/constant"
 	"go/types"
@@ -236,6 +237,12 @@ func checkC19(c *Ctx) {
 		}
 	}
 	c.Check(len(change.Sends) >= 1, "R19.2", "config.DetectDeviceConfigChanges/sends", pos, fmt.Sprintf("%d notification site(s)", len(change.Sends)), "no notification is ever sent")
+
+	// R19.2b the same on paths (one iteration of the event loop, from the receive back to the receive): an iteration
+	// notifies iff it saw a write to a name with the loader's suffix; an iteration that does not notify has seen the
+	// event not to be a write, the name not to have the suffix, or the event stream closed - nothing else (a size test,
+	// a "seen recently" filter, a per-name marker) may suppress a notification
+	ruleNotifyIff(c, worker, change, suffix)
 
 	// R19.4 shutdown structure
 	closesDeferredFirst := false
@@ -519,4 +526,96 @@ func ruleChangeConsumer(c *Ctx, change *chanClass) {
 		}
 	}
 	c.Check(reload, "R19.5", "cmd/hidi.Manager.Run/reloads-configs-each-cycle", c.P.Pos(run.Pos()), "LoadDeviceConfigs is called inside the manager's outer loop", "LoadDeviceConfigs is not called again after a change")
+}
+
+
+func ruleNotifyIff(c *Ctx, worker *ssa.Function, change *chanClass, suffix string) {
+	pos := c.P.Pos(worker.Pos())
+	vw := NewFnView(c.P, worker)
+	// the receive from watcher.Events
+	var start *ssa.BasicBlock
+	for _, b := range worker.Blocks {
+		for _, in := range b.Instrs {
+			if u, ok := in.(*ssa.UnOp); ok && u.Op == token.ARROW && strings.HasSuffix(vw.Term(u.X).String(), ".Events") && inCycle(b) {
+				start = b
+			}
+		}
+	}
+	key := "config.DetectDeviceConfigChanges/notify-iff-write+suffix"
+	if start == nil {
+		c.Undec("R19.2", key, pos, "the receive from watcher.Events was not found")
+		return
+	}
+	inline := map[*ssa.Function]bool{}
+	sendInstr := map[ssa.Instruction]bool{}
+	for _, s := range change.Sends {
+		sendInstr[s.Instr] = true
+		if s.Fn != worker && s.Fn.Parent() == nil {
+			inline[s.Fn] = true // a notification helper
+		}
+	}
+	paths, err := Enumerate(worker, SymConfig{Prog: c.P, MaxDepth: 2, Collapse: true, OnlyInline: inline, Start: start, Stop: map[*ssa.BasicBlock]bool{start: true}})
+	if err != nil {
+		c.Undec("R19.2", key, pos, fmt.Sprint(err))
+		return
+	}
+	c.Paths += len(paths)
+	n, bad := 0, ""
+	for _, p := range paths {
+		if p.End == "cut" {
+			continue
+		}
+		n++
+		notified := false
+		for _, e := range p.Effects {
+			if (e.Kind == "select" || e.Kind == "send") && sendInstr[e.Instr] {
+				notified = true
+			}
+		}
+		write, notWrite, suf, notSuf, closed := false, false, false, false, false
+		var extra []string
+		for _, a := range p.Atoms {
+			cnd, taken := a.Cond, a.Taken
+			for cnd.Op == "unop" && cnd.Aux == "!" {
+				cnd, taken = cnd.Args[0], !taken
+			}
+			str := cnd.String()
+			switch {
+			case cnd.Op == "call" && strings.HasPrefix(cnd.Aux, "strings.HasSuffix"):
+				got, _ := cnd.Args[1].IsStringConst()
+				if got == suffix && strings.Contains(cnd.Args[0].String(), "strings.ToLower") {
+					if taken {
+						suf = true
+					} else {
+						notSuf = true
+					}
+				} else {
+					extra = append(extra, a.String())
+				}
+			case isWriteTest(c, cnd, taken):
+				write = true
+			case isWriteTest(c, cnd, !taken):
+				notWrite = true
+			case cnd.Op == "extract" && cnd.Aux == "1" && len(cnd.Args) == 1 && cnd.Args[0].Op == "recv":
+				if !taken {
+					closed = true
+				}
+			case strings.Contains(str, "select"):
+				// which case of the hand-off select fired
+			default:
+				extra = append(extra, a.String())
+			}
+		}
+		switch {
+		case notified && !(write && suf):
+			bad = "a notification is sent on a path that has not established 'write to a name with suffix " + suffix + "'"
+		case !notified && !(notWrite || notSuf || closed):
+			bad = "an iteration of the watcher loop ends without notifying although it has not seen the event to be a non-write, a name without the suffix, or the stream closed (conditions on the path: " + truncate(strings.Join(extra, "; "), 200) + "): some in-place modifications of a configuration file go unnoticed"
+		}
+	}
+	if n == 0 {
+		c.Undec("R19.2", key, pos, "no path through one iteration of the watcher loop")
+		return
+	}
+	c.Check(bad == "", "R19.2", key, pos, fmt.Sprintf("%d path(s) through one iteration: notified iff write && suffix", n), bad)
 }
